@@ -240,6 +240,49 @@ Section RunProofs.
     exists mf, args, rq. repeat split; auto.
   Qed.
 
+  (* ---------------------------------------------------------------- gas charged = gas consumed *)
+
+  Lemma charge_exact : forall P g1 u, pf_usegas P = true -> Z.max 0 u <= g1 -> charge P g1 u = g1 - Z.max 0 u.
+  Proof.
+    intros P g1 u U H. unfold charge. rewrite U. destruct (g1 <? Z.max 0 u) eqn:E; [|reflexivity].
+    apply Z.ltb_lt in E. lia.
+  Qed.
+
+  Lemma run_handler_ok_gas : forall F P mf ro value g1 args st,
+    f_local_meter F = true -> pf_usegas P = true -> 0 <= g1 ->
+    r_out (run_handler F P mf ro value g1 args st) = Ok ->
+    exists st' u, body_ok (mf_id mf) args st g1 st' u /\ Z.max 0 u <= g1 /\
+                  r_left (run_handler F P mf ro value g1 args st) = g1 - Z.max 0 u.
+  Proof.
+    intros F P mf ro value g1 args st LM UG G. unfold Model.run_handler, oog, body_ok. rewrite LM. simpl.
+    repeat dmatch; simpl; intro H; try discriminate;
+      match goal with
+      | E : (g1 <? ?u) = false |- context [charge P g1 ?u] =>
+          apply Z.ltb_ge in E; eexists; exists u; (split; [eauto 10|]);
+          assert (M : Z.max 0 u <= g1) by lia; split; [exact M|apply charge_exact; assumption]
+      end.
+  Qed.
+
+  Lemma run_pc_ok_gas : forall F P c4 ro value gas inp st,
+    f_local_meter F = true -> pf_usegas P = true ->
+    r_out (run_pc F P c4 ro value gas inp st) = Ok ->
+    exists mf args rq st' u,
+      selected P inp = Some mf /\ i_unpack inp = Some args /\ required_gas F P c4 inp = GGas rq /\
+      body_ok (mf_id mf) args st (gas - rq) st' u /\
+      rq + Z.max 0 u <= gas /\ gas - r_left (run_pc F P c4 ro value gas inp st) = rq + Z.max 0 u.
+  Proof.
+    intros F P c4 ro value gas inp st LM UG. unfold Model.run_pc.
+    destruct (required_gas F P c4 inp) as [|rq] eqn:RG; simpl; [discriminate|].
+    destruct (gas <? rq) eqn:E; simpl; [discriminate|]. apply Z.ltb_ge in E.
+    destruct (i_len inp <? 4); simpl; [discriminate|].
+    destruct (selected P inp) as [mf|] eqn:S; simpl; [|discriminate].
+    destruct (i_unpack inp) as [args|] eqn:U; simpl; [|discriminate].
+    destruct (mf_in_switch mf) eqn:SW; simpl; [|discriminate].
+    intro H. assert (G1 : 0 <= gas - rq) by lia.
+    destruct (run_handler_ok_gas F P mf ro value (gas - rq) args st LM UG G1 H) as [st' [u [B [M L]]]].
+    exists mf, args, rq, st', u. repeat split; auto; lia.
+  Qed.
+
   (** where a Panic can come from *)
   Lemma run_handler_panic : forall F P mf ro value g1 args st,
     r_out (run_handler F P mf ro value g1 args st) = Panic ->
@@ -444,6 +487,70 @@ Section RunProofs.
     destruct OK as [mf' [args [rq [S' [_ [_ [_ [GP _]]]]]]]]. rewrite S in S'. inversion S'. subst mf'.
     unfold guard_passes in GP. rewrite GQ in GP.
     destruct k; simpl in *; try discriminate; apply negb_false_iff in GP; apply Z.eqb_eq in GP; contradiction.
+  Qed.
+
+  Lemma evm_call_ok_left : forall F p k value gas inp st,
+    r_out (evm_call F p k value gas inp st) = Ok ->
+    r_left (evm_call F p k value gas inp st) =
+    r_left (run_pc F (pc_of F p) (cap4_of k inp) (pc_readonly F k) (pc_value k value) gas inp
+            (if transfers k && negb (value =? 0) then transfer st value else st)).
+  Proof.
+    intros F p k value gas inp st. unfold Model.evm_call.
+    match goal with |- context [Model.run_pc St body after_mint ?a ?b ?c4 ?c ?d ?e ?f ?g] =>
+      destruct (Model.run_pc St body after_mint a b c4 c d e f g) as [o l s] end.
+    destruct o; simpl; intro H; try discriminate; reflexivity.
+  Qed.
+
+  Lemma usegas_of : forall F p, guards_ok F = true -> pf_usegas (pc_of F p) = true.
+  Proof.
+    intros F p H. pose proof (pc_ok_of F p H) as PO. unfold pc_ok in PO.
+    repeat (apply andb_prop in PO as [PO ?]). assumption.
+  Qed.
+
+  Lemma local_meter_of : forall F, panic_ok F = true -> f_local_meter F = true.
+  Proof. intros F H. unfold panic_ok in H. repeat (apply andb_prop in H as [H ?]). assumption. Qed.
+
+  (** C08_gas_charged_is_consumed: a successful call is charged exactly RequiredGas plus what the
+      local gas meter recorded for the body, and that never exceeds the gas forwarded *)
+  Lemma evm_call_gas_charged : forall F p k value gas inp st,
+    guards_ok F = true -> panic_ok F = true ->
+    r_out (evm_call F p k value gas inp st) = Ok ->
+    exists mf args rq st' u,
+      selected (pc_of F p) inp = Some mf /\ i_unpack inp = Some args /\
+      required_gas F (pc_of F p) (cap4_of k inp) inp = GGas rq /\
+      body_ok (mf_id mf) args (if transfers k && negb (value =? 0) then transfer st value else st) (gas - rq) st' u /\
+      gas - r_left (evm_call F p k value gas inp st) = rq + Z.max 0 u /\ rq + Z.max 0 u <= gas.
+  Proof.
+    intros F p k value gas inp st GO PO OK.
+    rewrite (evm_call_ok_left _ _ _ _ _ _ _ OK). rewrite evm_call_out in OK.
+    destruct (run_pc_ok_gas F _ _ _ _ _ _ _ (local_meter_of F PO) (usegas_of F p GO) OK)
+      as [mf [args [rq [st' [u [S [U [RG [B [L E]]]]]]]]]].
+    exists mf, args, rq, st', u. repeat split; auto.
+  Qed.
+
+  (** the body's gas consumption does not depend on how much gas it was offered *)
+  Definition body_cost_deterministic : Prop :=
+    forall m args st lim lim' s1 s2 u1 u2,
+      body_ok m args st lim s1 u1 -> body_ok m args st lim' s2 u2 -> Z.max 0 u1 = Z.max 0 u2.
+
+  (** the price of a successful call is independent of the gas forwarded: the cost measured with
+      ample gas is what every successful run of the same call is charged, hence no run with less
+      forwarded gas than that succeeds *)
+  Lemma evm_call_cost_independent : forall F p k value gas gas' inp st,
+    guards_ok F = true -> panic_ok F = true -> body_cost_deterministic ->
+    r_out (evm_call F p k value gas' inp st) = Ok ->
+    P_gas (r_out (evm_call F p k value gas inp st)) gas (r_left (evm_call F p k value gas inp st))
+          (Some (gas' - r_left (evm_call F p k value gas' inp st))).
+  Proof.
+    intros F p k value gas gas' inp st GO PO BD OK' c E OK. inversion E. subst c. clear E.
+    destruct (evm_call_gas_charged F p k value gas inp st GO PO OK)
+      as [mf [args [rq [s1 [u1 [S [U [RG [B [L LE]]]]]]]]]].
+    destruct (evm_call_gas_charged F p k value gas' inp st GO PO OK')
+      as [mf' [args' [rq' [s2 [u2 [S' [U' [RG' [B' [L' LE']]]]]]]]]].
+    rewrite S in S'. inversion S'. subst mf'. rewrite U in U'. inversion U'. subst args'.
+    rewrite RG in RG'. apply GGas_inj in RG'. subst rq'.
+    pose proof (BD _ _ _ _ _ _ _ _ _ B B') as EQ.
+    split; lia.
   Qed.
 
   (** the property predicate of Spec.v holds of every model run *)
